@@ -33,7 +33,7 @@ def extra(cases, verdicts):
 CLAIMED = True
 
 PROP = dict(
-    proof_modules=["VrpProofs.C06", "VrpProofs.C06Cap"], model_modules=["VrpModel.Route", "VrpModel.C06"],
+    proof_modules=["VrpProofs.C06", "VrpProofs.C06Cap", "VrpProofs.C06CapVec"], model_modules=["VrpModel.Route", "VrpModel.C06"],
     drv="drv_c06", bin="c06", compare=compare, nontrivial=nontrivial, extra_evidence=extra,
     rule="tours of 0..6 activities feasible by construction (windows placed around the simulated arrival with slack 0..1000, "
          "capacity = max load + 0..5), open and closed, static/dynamic/replacement/mixed demand in 1-2 dimensions, candidate job with "
@@ -45,7 +45,8 @@ PROP = dict(
     traced="eval_multi (multi-task jobs): the implementation's placements are checked by the simulation (soundness only, as the property states)",
     out_of_model="LegSelection::Stochastic sampling, time-dependent routing, reload intervals (C01 campaign), f64 rounding (integer data)",
     assumptions=["harness goal: features [min-unassigned, min-tours, transport(time constrained), capacity] in this order",
-                 "capacity theorems are proved per dimension; two-dimensional cases are covered by the correspondence only"],
+                 "capacity soundness is proved for any number of dimensions under WF n (all load vectors of a case have the same length, as "
+                 "MultiDimLoad guarantees and the harness pads)"],
 )
 
 META = dict(
@@ -54,11 +55,13 @@ META = dict(
          "(evalTime_sound, evalTime_complete, evalTime_exact; no triangle inequality needed; the stop-pruning is unreachable on a feasible "
          "tour: evalTime_never_stops); the leg/place/window scan only returns placements the constraint model accepted (evalJob_accepted, "
          "evalJob_sound_time); capacity: the test on cached max-past/max-future/current implies the full load profile stays within "
-         "capacity for every demand shape (cap_sound1, per dimension; vector model tied at one dimension by hasDemandViolation_dim1). "
+         "capacity for every demand shape, in every dimension (cap_sound1 for one dimension; cap_sound_vec for the executable vector model with any "
+         "number of dimensions: every component of the vector profile and caches IS the one-dimensional model, map_pr_loadProfile / "
+         "map_pr_runMax / map_pr_maxFuture, and a vector verdict `none` gives the one-dimensional verdict in every component, viol1_of_vec). "
          "Tie: exact differential run (position, place, window, cost vector, schedule) of the real eval_job_insertion_in_route for Any and "
          "every Concrete(p) against the model, plus brute-force simulation oracles on the implementation's own placements (soundness for "
          "single and multi-task jobs, completeness of Any for single-task jobs).",
     note=COMMON_NOTE + " Partial: whole-evaluator completeness is decided by the brute-force oracle on generated cases (the theorem covers the "
-         "time test and, per dimension, capacity soundness); multi-dimension lifting and capacity completeness are not proved.",
+         "time test and capacity soundness in any number of dimensions); capacity completeness is not proved.",
     technique="Lean 4 induction over tour suffixes (omega) + exact differential correspondence with the real evaluator + brute-force simulation oracle",
 )
